@@ -58,10 +58,14 @@ type Op struct {
 	Size   int
 	Sender int
 	Seq    int
+	Bad    bool // the message cannot be decoded by the receiver's encoding (first byte 0xEE)
 }
 
 func (o Op) String() string {
 	if o.Kind == OpSend {
+		if o.Bad {
+			return fmt.Sprintf("SendUndecodable(%d,s%d#%d)", o.Size, o.Sender, o.Seq)
+		}
 		return fmt.Sprintf("Send(%d,s%d#%d)", o.Size, o.Sender, o.Seq)
 	}
 	if o.Kind == OpDelay {
@@ -98,6 +102,7 @@ type RPCSpec struct {
 	Idx     int
 	Shape   int
 	Unknown bool // call an unregistered rpc name
+	BadMarshal bool // unary: the request cannot be encoded
 	Meta    map[string]string
 	HasMeta bool
 	ReqSize int
@@ -132,6 +137,9 @@ func (r *RPCSpec) String() string {
 	s := fmt.Sprintf("rpc%d %s task=%d", r.Idx, shapeNames[r.Shape], r.Task)
 	if r.Unknown {
 		s += " unknown-name"
+	}
+	if r.BadMarshal {
+		s += " unencodable-request"
 	}
 	if r.HasMeta {
 		s += " meta=" + fmtMap(r.Meta)
@@ -224,13 +232,14 @@ type E1Mode struct {
 	StormP      float64 // probability of the "unary storm" program family
 	PooledP     float64 // probability of the pooled family (client calls go through drpcpool)
 	ServeCancelP float64 // probability that the server's context is cancelled at a scheduler-chosen instant
+	BadMsgP     float64 // probability that a conversation message is undecodable / a unary request unencodable
 }
 
 func e1ModeFor(prop string) E1Mode {
 	m := E1Mode{Prop: prop, MaxRPCs: 4, MaxTasks: 1, ForceSoftC: -1, Probe: true, ManualOK: true, ServeP: 0.15}
 	switch prop {
 	case "C01":
-		m.Duplex, m.BigP, m.SmallNet, m.MaxRPCs, m.CloserP = 0.5, 0.3, 0.4, 3, 0.25
+		m.Duplex, m.BigP, m.SmallNet, m.MaxRPCs, m.CloserP, m.BadMsgP = 0.5, 0.3, 0.4, 3, 0.25, 0.03
 	case "C02":
 		m.MaxRPCs, m.MaxTasks, m.Misbehave, m.CancelP, m.ErrP, m.OnlyUnaryP, m.StormP = 6, 3, 0.4, 0.35, 0.3, 0.2, 0.25
 	case "C04":
@@ -238,7 +247,7 @@ func e1ModeFor(prop string) E1Mode {
 	case "C05":
 		m.MaxRPCs, m.IOFaults, m.ErrP, m.Misbehave, m.Duplex, m.ServeP, m.NoInact, m.MetaP = 3, true, 0.2, 0.2, 0.2, 0, true, 0.3
 	case "C06":
-		m.MaxRPCs, m.Misbehave, m.CancelP, m.ErrP, m.ForceSoftC, m.StallP, m.StallHeals, m.MetaP = 4, 0.7, 0.4, 0.3, 1, 0.2, true, 0.4
+		m.MaxRPCs, m.Misbehave, m.CancelP, m.ErrP, m.ForceSoftC, m.StallP, m.StallHeals, m.MetaP, m.BadMsgP, m.SmallNet = 4, 0.7, 0.4, 0.3, 1, 0.2, true, 0.4, 0.06, 0.25
 	case "C07":
 		m.MaxRPCs, m.MaxTasks, m.Duplex, m.CancelP, m.Misbehave, m.SmallNet, m.CloserP = 4, 3, 0.6, 0.4, 0.4, 0.6, 0.5
 	case "C10":
@@ -429,12 +438,13 @@ func (g *e1gen) conversation(r *RPCSpec) {
 		n := 1 + g.weighted(3, 2, 1)
 		for i := 0; i < n; i++ {
 			sz := g.size()
+			bad := sz > 0 && g.chance(g.mode.BadMsgP)
 			if dir == 0 {
-				r.COps = append(r.COps, Op{Kind: OpSend, Size: sz, Seq: cseq})
+				r.COps = append(r.COps, Op{Kind: OpSend, Size: sz, Seq: cseq, Bad: bad})
 				r.HOps = append(r.HOps, Op{Kind: OpRecv})
 				cseq++
 			} else {
-				r.HOps = append(r.HOps, Op{Kind: OpSend, Size: sz, Seq: hseq})
+				r.HOps = append(r.HOps, Op{Kind: OpSend, Size: sz, Seq: hseq, Bad: bad})
 				r.COps = append(r.COps, Op{Kind: OpRecv})
 				hseq++
 			}
@@ -558,6 +568,10 @@ func (g *e1gen) rpc(idx int) *RPCSpec {
 		}
 		if g.chance(0.5) {
 			r.CEnd = EndCloseCancel // the ubiquitous `defer cancel()` idiom
+		}
+		if g.chance(m.BadMsgP) {
+			r.BadMarshal = true
+			r.Clean = false
 		}
 	default:
 		if g.chance(m.Duplex) {
